@@ -3,7 +3,7 @@
 #   invert_boolean_check._invert_comparisons      -> the operator table (pairs of libcst class names) and the form of the
 #                                                    default branch are EXTRACTED; the rest of the transformer
 #                                                    (leave_UnaryOperation, report_new_comparison, the loop skeleton) is
-#                                                    shape-compared (Pinned / Repaired: chains inverted?, parentheses kept?)
+#                                                    shape-compared (Pinned / ParensOnly / Repaired: chains inverted?, parentheses kept?)
 #   combine_calls_base                            -> three matchers + two folds + combine_calls/combine_args:
 #                                                    Pinned (inner operator not tested, parentheses dropped) / Repaired
 #   combine_startswith_endswith / _isinstance_issubclass -> make_call_matcher, check_calls_same_instance, the four class attributes
@@ -114,7 +114,7 @@ def _invert_fn(tree, repo):
     if wired is None or "InvertedBooleanCheckTransformer" not in ast.dump(wired):
         raise Unrecognised("InvertedBooleanCheck is not built from InvertedBooleanCheckTransformer")
     return {"table": [list(p) for p in pairs], "default": default,
-            "chains": variant == "Pinned", "parens": variant == "Repaired", "skeleton": variant}
+            "chains": variant in ("Pinned", "ParensOnly"), "parens": variant in ("ParensOnly", "Repaired"), "skeleton": variant}
 
 
 def _invert_print(v):
@@ -137,7 +137,7 @@ _COMBINE_METHODS = ["leave_BooleanOperation", "matches_call_or_call", "matches_c
 
 def _combine_fn(tree, repo):
     v = _variant("kernel_combine_base", tree, "CombineCallsBaseCodemod", _COMBINE_METHODS, [])
-    return {"Pinned": "pinned_combine", "Repaired": "repaired_combine"}[v]
+    return {"Pinned": "pinned_combine", "ParensOnly": "{| cc_inner_or := false; cc_parens := true |}", "Repaired": "repaired_combine"}[v]
 
 
 custom("kernel_combine_base", "src/core_codemods/combine_calls_base.py", _KPROPS, "combine_cfg_v", "combine_cfg",
